@@ -6,6 +6,17 @@
 //!   `lint_paths` on a file and on a directory (the code path of `sqruff fix <file|dir>`),
 //!   `render_string` + `lint_rendered`, `lint_string_wrapped`; fix, lint-of-fix and fix-of-fix all go
 //!   through the same entry point.
+//! * the command line is an entry point too: the `sqruff` binary built from the tree (`--sqruff <bin>`) is run as
+//!   `sqruff fix --force <paths>` / `sqruff lint <paths>` / `sqruff fix -` over several shapes of the path
+//!   argument list (one file, a directory, file + directory, an already clean argument next to dirty ones,
+//!   a directory without SQL files, the working directory, stdin), configuration through `.sqruff` or `--config`.
+//! * "reaches the policy" is read independently of the tool's own lint: `scope` walks the parse tree and lists,
+//!   per element kind, the tokens the kind's policy applies to (crawled segment kinds, the documented
+//!   exemptions, the exact-word ignore list, anchored ignore regexes). `policy-reached`: in the fixed text every
+//!   such token is written in the configured case. `scope-visited`: during a lint every such token is handed to
+//!   `handle_segment` (recorder), and no exempt token is (`H_exempt_tokens_not_visited`).
+//! * group `crawl`: the calls of one whole crawl of one rule against the Gallina `trace` over the scope tokens
+//!   (ties the ignore_words guard of `RuleCP01::eval` and the visiting set to the `pass` the theorems are about).
 //! * group `call`: every recorded call of `handle_segment` (hook in cp01.rs: raw, policy, policy
 //!   list name, memory before/after, result) replayed on the Gallina `handle`.
 use std::collections::BTreeSet;
@@ -52,7 +63,25 @@ enum Entry {
     Rendered,
     /// `Linter::lint_string_wrapped`
     Wrapped,
+    /// the `sqruff` binary: `sqruff fix --force <args>` / `sqruff lint <args>`; index into `CLI_SHAPES`
+    Cli(usize),
 }
+/// Shapes of the command line's path arguments. The scenario directory holds `top.sql` and `d1/main.sql` (the text
+/// under test), `d1/other.sql` (the same text in upper case), `clean/ok.sql` (a text that already follows the
+/// policy: the library's fix of the source) and `empty/readme.txt` (a directory without SQL files).
+/// (name, arguments, configuration passed with `--config` instead of `.sqruff` in the working directory)
+const CLI_SHAPES: [(&str, &[&str], bool); 10] = [
+    ("cli-file", &["top.sql"], false),
+    ("cli-file-config-flag", &["top.sql"], true),
+    ("cli-dir", &["d1"], false),
+    ("cli-file+dir", &["top.sql", "d1"], false),
+    ("cli-clean-dir+dir+file", &["clean", "d1", "top.sql"], false),
+    ("cli-file+clean-file", &["top.sql", "clean/ok.sql"], true),
+    ("cli-dir+dir-without-sql", &["d1", "empty"], false),
+    ("cli-dir-without-sql+file", &["empty", "top.sql"], false),
+    ("cli-working-directory", &["."], false),
+    ("cli-stdin", &["-"], false),
+];
 const ALT_ENTRIES: [Entry; 4] = [Entry::PathsFile, Entry::PathsDir, Entry::Rendered, Entry::Wrapped];
 impl Entry {
     fn name(self) -> &'static str {
@@ -62,36 +91,49 @@ impl Entry {
             Entry::PathsDir => "lint_paths-dir",
             Entry::Rendered => "render_string+lint_rendered",
             Entry::Wrapped => "lint_string_wrapped",
+            Entry::Cli(i) => CLI_SHAPES[i].0,
         }
     }
     fn from_name(s: &str) -> Option<Entry> {
-        std::iter::once(Entry::Str).chain(ALT_ENTRIES).find(|e| e.name() == s)
+        std::iter::once(Entry::Str).chain(ALT_ENTRIES).chain((0..CLI_SHAPES.len()).map(Entry::Cli)).find(|e| e.name() == s)
     }
 }
 
 /// Per-thread scratch directory for the path based entry points.
 struct Scratch {
     dir: std::path::PathBuf,
+    /// the `sqruff` binary built from the tree (`--sqruff`), if given
+    sqruff: Option<std::path::PathBuf>,
 }
 fn scratch_base() -> std::path::PathBuf {
     // scratch lives under <verif>/.cache (SQV_SCRATCH is set by bin/vlib.py), not under /tmp
     std::env::var("SQV_SCRATCH").map(std::path::PathBuf::from).unwrap_or_else(|_| std::env::temp_dir()).join(format!("sqv-c16-{}", std::process::id()))
 }
 impl Scratch {
-    fn new() -> Scratch {
+    fn new(sqruff: Option<std::path::PathBuf>) -> Scratch {
         static N: std::sync::atomic::AtomicUsize = std::sync::atomic::AtomicUsize::new(0);
         let dir = scratch_base().join(format!("t{}", N.fetch_add(1, std::sync::atomic::Ordering::SeqCst)));
         std::fs::create_dir_all(dir.join("d")).expect("scratch dir");
-        Scratch { dir }
+        Scratch { dir, sqruff }
     }
 }
 
-fn mk_config(dialect: &str, pol: &[&str; 5], ignore: &[Option<String>; 5]) -> String {
+/// per kind: `ignore_words`, `ignore_words_regex`
+#[derive(Default, Clone)]
+struct Ignore {
+    words: [Option<String>; 5],
+    regex: [Option<String>; 5],
+}
+
+fn mk_config(dialect: &str, pol: &[&str; 5], ignore: &Ignore) -> String {
     let mut s = format!("[sqruff]\ndialect = {}\nrules = CP01,CP02,CP03,CP04,CP05\n", dialect);
     for (i, (sec, key)) in KINDS.iter().enumerate() {
         s.push_str(&format!("[sqruff:rules:{}]\n{} = {}\n", sec, key, pol[i]));
-        if let Some(w) = &ignore[i] {
+        if let Some(w) = &ignore.words[i] {
             s.push_str(&format!("ignore_words = {}\n", w));
+        }
+        if let Some(w) = &ignore.regex[i] {
+            s.push_str(&format!("ignore_words_regex = {}\n", w));
         }
     }
     s
@@ -181,23 +223,79 @@ fn gen_policies(rng: &mut Rng, k: usize) -> [&'static str; 5] {
     }
 }
 
-fn gen_ignore(rng: &mut Rng, sql: &str) -> [Option<String>; 5] {
-    let mut ig: [Option<String>; 5] = Default::default();
+/// the words of the text as written (case kept)
+fn words_cased(sql: &str) -> Vec<String> {
+    let mut set = BTreeSet::new();
+    for w in sql.split(|c: char| !(c.is_ascii_alphanumeric() || c == '_')) {
+        if !w.is_empty() && w.len() < 24 && w.chars().next().unwrap().is_ascii_alphabetic() {
+            set.insert(w.to_string());
+        }
+    }
+    set.into_iter().collect()
+}
+
+/// A part of a word: a piece between underscores, or its first / last two or three characters. An ignore list
+/// holding such a part must not exempt the whole word.
+fn fragment(rng: &mut Rng, w: &str) -> String {
+    let pieces: Vec<&str> = w.split('_').filter(|p| !p.is_empty()).collect();
+    let f = match rng.below(3) {
+        0 if pieces.len() > 1 => pieces[rng.below(pieces.len())].to_string(),
+        1 if w.len() > 3 => w[..rng.range(2, 3)].to_string(),
+        _ if w.len() > 3 => w[w.len() - rng.range(2, 3)..].to_string(),
+        _ => w.to_string(),
+    };
+    if f.chars().next().is_some_and(|c| c.is_ascii_alphabetic()) { f } else { w.to_string() }
+}
+
+/// words the configuration parser does not read as a string
+fn odd_config_word(w: &str) -> bool {
+    w.parse::<f64>().is_ok() || ["none", "true", "false"].iter().any(|k| w.eq_ignore_ascii_case(k))
+}
+
+fn gen_ignore(rng: &mut Rng, sql: &str) -> Ignore {
+    let mut ig = Ignore::default();
     if rng.chance(1, 2) {
         return ig;
     }
     let ws = words_of(sql);
+    let wc = words_cased(sql);
     if ws.is_empty() {
         return ig;
     }
-    for x in ig.iter_mut() {
+    for i in 0..5 {
         if rng.chance(1, 2) {
             let n = rng.range(1, 3);
-            let mut picked: Vec<String> = (0..n).map(|_| ws[rng.below(ws.len())].clone()).collect();
+            // whole words of the text, or parts of its words
+            let mut picked: Vec<String> = (0..n)
+                .map(|_| {
+                    let w = ws[rng.below(ws.len())].clone();
+                    if rng.chance(1, 3) { fragment(rng, &w) } else { w }
+                })
+                .filter(|w| !odd_config_word(w))
+                .collect();
+            if picked.is_empty() {
+                continue;
+            }
             if rng.chance(1, 3) {
                 picked[0] = picked[0].to_ascii_uppercase(); // the config lower-cases them
             }
-            *x = Some(picked.join(","));
+            ig.words[i] = Some(picked.join(","));
+        }
+        if rng.chance(1, 5) {
+            // anchored regular expressions over a word (or a part of one) as written in the text
+            let n = rng.range(1, 2);
+            let picked: Vec<String> = (0..n)
+                .map(|_| {
+                    let w = wc[rng.below(wc.len())].clone();
+                    let w = if rng.chance(1, 2) { fragment(rng, &w) } else { w };
+                    match rng.below(3) {
+                        0 => format!("^{}", w),
+                        1 => format!("{}$", w),
+                        _ => format!("^{}$", w),
+                    }
+                })
+                .collect();
+            ig.regex[i] = Some(picked.join(","));
         }
     }
     ig
@@ -261,35 +359,267 @@ fn viols(f: &sqruff_lib::core::linter::linted_file::LintedFile) -> Vec<Viol> {
     f.violations.iter().filter_map(|v| v.rule.as_ref().map(|r| (r.code.to_string(), v.line_no, v.line_pos))).collect()
 }
 
+
+// ---------------------------------------------------------------- which tokens a policy applies to
+/// An `ignore_words_regex` entry of the shapes the generator writes (the regex engine is not re-implemented).
+#[derive(Clone, Debug)]
+enum SimpleRe {
+    Prefix(String),
+    Suffix(String),
+    Exact(String),
+}
+impl SimpleRe {
+    fn parse(s: &str) -> Option<SimpleRe> {
+        let body = s.trim_start_matches('^').trim_end_matches('$');
+        if body.is_empty() || !body.chars().all(|c| c.is_ascii_alphanumeric() || c == '_') {
+            return None;
+        }
+        match (s.starts_with('^'), s.ends_with('$')) {
+            (true, true) if s.len() == body.len() + 2 => Some(SimpleRe::Exact(body.into())),
+            (true, false) if s.len() == body.len() + 1 => Some(SimpleRe::Prefix(body.into())),
+            (false, true) if s.len() == body.len() + 1 => Some(SimpleRe::Suffix(body.into())),
+            _ => None,
+        }
+    }
+    fn is_match(&self, raw: &str) -> bool {
+        match self {
+            SimpleRe::Prefix(p) => raw.starts_with(p.as_str()),
+            SimpleRe::Suffix(p) => raw.ends_with(p.as_str()),
+            SimpleRe::Exact(p) => raw == p,
+        }
+    }
+}
+
+/// What the configuration says about one element kind.
+#[derive(Clone, Debug, Default)]
+struct KindCfg {
+    policy: String,
+    /// `ignore_words`, lower-cased
+    words: Vec<String>,
+    regex: Vec<SimpleRe>,
+}
+
+/// Reads the configuration text back (the format `mk_config` writes; replays carry only the text).
+/// `None`: a value this reading does not cover (the scope observations are then skipped and counted).
+fn parse_cfg(config: &str) -> Option<[KindCfg; 5]> {
+    let mut out: [KindCfg; 5] = Default::default();
+    for k in out.iter_mut() {
+        k.policy = "consistent".into();
+    }
+    let mut cur: Option<usize> = None;
+    for line in config.lines() {
+        let line = line.trim();
+        if let Some(sec) = line.strip_prefix('[').and_then(|l| l.strip_suffix(']')) {
+            cur = sec.strip_prefix("sqruff:rules:").and_then(|name| KINDS.iter().position(|(s, _)| *s == name));
+            if cur.is_none() && sec != "sqruff" {
+                return None;
+            }
+            continue;
+        }
+        let Some(i) = cur else { continue };
+        let Some((key, val)) = line.split_once('=') else { continue };
+        let (key, val) = (key.trim(), val.trim());
+        if key == KINDS[i].1 {
+            out[i].policy = val.to_string();
+        } else if key == "ignore_words" {
+            if val.parse::<f64>().is_ok() {
+                return None;
+            }
+            if val.eq_ignore_ascii_case("none") {
+                continue;
+            }
+            out[i].words = val.split(',').map(|w| w.to_lowercase()).collect();
+        } else if key == "ignore_words_regex" {
+            if val.eq_ignore_ascii_case("none") {
+                continue;
+            }
+            for r in val.split(',') {
+                out[i].regex.push(SimpleRe::parse(r)?);
+            }
+        } else {
+            return None;
+        }
+    }
+    Some(out)
+}
+
+/// One token a kind's policy applies to.
+#[derive(Clone, Debug)]
+struct Tok {
+    raw: String,
+    templated: bool,
+    /// its lower-cased text is on the kind's `ignore_words`
+    ignored_word: bool,
+    /// it matches one of the kind's `ignore_words_regex`
+    ignored_regex: bool,
+}
+impl Tok {
+    fn exempt(&self) -> bool {
+        self.ignored_word || self.ignored_regex
+    }
+}
+
+use sqruff_lib_core::dialects::syntax::SyntaxKind;
+use sqruff_lib_core::parser::segments::base::ErasedSegment;
+
+/// The element kinds, read off the parse tree (kind index as in `KINDS`), in crawl order:
+/// * keywords: segments of kind keyword, binary_operator, date_part;
+/// * identifiers: naked_identifier, properties_naked_identifier (sparksql keeps the case-sensitive table
+///   property `enableChangeDataFeed`);
+/// * functions: function_name_identifier, bare_function;
+/// * literals: null_literal, boolean_literal;
+///   (a quoted function name, BigQuery's `` `project.dataset.fn`(x) ``, is a quoted identifier: out of scope);
+///   — for these four not directly inside a data type (data_type, datetime_type_identifier, primitive_type: the
+///   types policy's domain), inside a naked identifier, or inside a qualified (multi-part) function name;
+/// * types: the leaf children of data_type / primitive_type / datetime_type_identifier nodes other than symbols,
+///   identifiers, quoted identifiers (a quoted user-defined type name) and quoted literals.
+/// `ignore_words` exempts a token whose lower-cased text is on the list, `ignore_words_regex` one that matches;
+/// the types rule reads neither list.
+fn scope(tree: &ErasedSegment, dialect: &str, cfg: &[KindCfg; 5]) -> [Vec<Tok>; 5] {
+    const CRAWLED: [&[SyntaxKind]; 4] = [
+        &[SyntaxKind::Keyword, SyntaxKind::BinaryOperator, SyntaxKind::DatePart],
+        &[SyntaxKind::NakedIdentifier, SyntaxKind::PropertiesNakedIdentifier],
+        &[SyntaxKind::FunctionNameIdentifier, SyntaxKind::BareFunction],
+        &[SyntaxKind::NullLiteral, SyntaxKind::BooleanLiteral],
+    ];
+    const TYPE_NODES: [SyntaxKind; 3] = [SyntaxKind::PrimitiveType, SyntaxKind::DatetimeTypeIdentifier, SyntaxKind::DataType];
+    fn tok(seg: &ErasedSegment, k: &KindCfg, lists: bool) -> Tok {
+        let raw = seg.raw().to_string();
+        Tok {
+            templated: seg.is_templated(),
+            ignored_word: lists && k.words.contains(&raw.to_lowercase()),
+            ignored_regex: lists && k.regex.iter().any(|r| r.is_match(&raw)),
+            raw,
+        }
+    }
+    fn walk(seg: &ErasedSegment, parent: Option<&ErasedSegment>, dialect: &str, cfg: &[KindCfg; 5], out: &mut [Vec<Tok>; 5]) {
+        let ty = seg.get_type();
+        for (k, kinds) in CRAWLED.iter().enumerate() {
+            if !kinds.contains(&ty) {
+                continue;
+            }
+            let Some(parent) = parent else { continue };
+            let pty = parent.get_type();
+            if k == 1 && dialect == "sparksql" && pty == SyntaxKind::PropertyNameIdentifier && seg.raw() == "enableChangeDataFeed" {
+                continue;
+            }
+            if TYPE_NODES.contains(&pty) || pty == SyntaxKind::NakedIdentifier {
+                continue;
+            }
+            if pty == SyntaxKind::FunctionName && parent.segments().len() != 1 {
+                continue;
+            }
+            if k == 2 && seg.raw().starts_with(['`', '"']) {
+                continue; // a quoted function name is a quoted identifier
+            }
+            out[k].push(tok(seg, &cfg[k], true));
+        }
+        if TYPE_NODES.contains(&ty) {
+            for child in seg.segments() {
+                let cty = child.get_type();
+                if cty == SyntaxKind::Symbol || cty == SyntaxKind::Identifier || cty == SyntaxKind::QuotedIdentifier || cty == SyntaxKind::QuotedLiteral || !child.segments().is_empty() {
+                    continue;
+                }
+                out[4].push(tok(child, &cfg[4], false));
+            }
+        }
+        for child in seg.segments() {
+            walk(child, Some(seg), dialect, cfg, out);
+        }
+    }
+    let mut out: [Vec<Tok>; 5] = Default::default();
+    walk(tree, None, dialect, cfg, &mut out);
+    out
+}
+
+/// kind index of a recorded call: the rule's element name, and for the two rules that share one the segment kind
+fn kind_of_call(c: &CapsCall) -> Option<usize> {
+    match c.elem.as_str() {
+        "Unquoted identifiers" => Some(1),
+        "Function names" => Some(2),
+        "Datatypes" => Some(4),
+        "Boolean/null literals" => Some(3),
+        "Keywords" => Some(if c.seg_type == "null_literal" || c.seg_type == "boolean_literal" { 3 } else { 0 }),
+        _ => None,
+    }
+}
+
+/// The four concrete cases on an ASCII token (`None`: not ASCII, or not a concrete policy name).
+fn apply_case(policy: &str, raw: &str) -> Option<String> {
+    if !raw.is_ascii() {
+        return None;
+    }
+    Some(match policy {
+        "upper" => raw.to_ascii_uppercase(),
+        "lower" => raw.to_ascii_lowercase(),
+        "capitalise" => {
+            let mut cs = raw.chars();
+            match cs.next() {
+                Some(f) => format!("{}{}", f.to_ascii_uppercase(), cs.as_str().to_ascii_lowercase()),
+                None => String::new(),
+            }
+        }
+        "pascal" => {
+            let mut prev = false;
+            raw.chars()
+                .map(|c| {
+                    let r = if c.is_ascii_alphanumeric() && !prev { c.to_ascii_uppercase() } else { c };
+                    prev = c.is_ascii_alphanumeric();
+                    r
+                })
+                .collect()
+        }
+        _ => return None,
+    })
+}
+
+fn parse_tree(linter: &Linter, sql: &str) -> Option<ErasedSegment> {
+    catch(|| {
+        let tables = Tables::default();
+        linter.parse_string(&tables, sql, None).ok()?.tree
+    })
+    .ok()
+    .flatten()
+}
+
+/// What one run through an entry point gave.
+struct EntryOut {
+    /// the text after the run (`fix_string`, or the file's content after `sqruff fix`)
+    text: String,
+    viols: Vec<Viol>,
+    /// command line only: the copies of the text under test did not all end up the same (names and texts)
+    copies_differ: Option<String>,
+}
+fn entry_out(f: sqruff_lib::core::linter::linted_file::LintedFile) -> EntryOut {
+    let viols = viols(&f);
+    EntryOut { text: f.fix_string(), viols, copies_differ: None }
+}
+
 /// Lint (`fix = false`) or fix (`fix = true`) `sql` through the public entry point `entry`:
 /// the resulting text (`fix_string`) and the rule violations reported.
-fn run_entry(entry: Entry, linter: &mut Linter, sc: &Scratch, sql: &str, fix: bool) -> Result<(String, Vec<Viol>), String> {
+/// `clean`: a text that already follows the policy under `config` (only the command line scenarios use it).
+fn run_entry(entry: Entry, linter: &mut Linter, sc: &Scratch, config: &str, clean: Option<&str>, sql: &str, fix: bool) -> Result<EntryOut, String> {
     let never = |_: &std::path::Path| false;
+    if let Entry::Cli(shape) = entry {
+        return cli_entry(shape, sc, config, clean.unwrap_or(""), sql, fix);
+    }
     catch(move || match entry {
-        Entry::Str => {
-            let f = linter.lint_string(sql, None, fix);
-            let vs = viols(&f);
-            (f.fix_string(), vs)
-        }
+        Entry::Str => entry_out(linter.lint_string(sql, None, fix)),
         Entry::Wrapped => {
             let r = linter.lint_string_wrapped(sql, fix);
             let f = r.paths.into_iter().flat_map(|d| d.files.into_iter()).next().expect("lint_string_wrapped returned no file");
-            let vs = viols(&f);
-            (f.fix_string(), vs)
+            entry_out(f)
         }
         Entry::Rendered => {
             let rendered = linter.render_string(sql, "<string>".to_string(), linter.config()).expect("render_string");
-            let f = linter.lint_rendered(rendered, fix);
-            let vs = viols(&f);
-            (f.fix_string(), vs)
+            entry_out(linter.lint_rendered(rendered, fix))
         }
         Entry::PathsFile => {
             let path = sc.dir.join("q.sql");
             std::fs::write(&path, sql).expect("write scratch file");
             let r = linter.lint_paths(vec![path], fix, &never);
             let f = r.paths.into_iter().flat_map(|d| d.files.into_iter()).next().expect("lint_paths returned no file");
-            let vs = viols(&f);
-            (f.fix_string(), vs)
+            entry_out(f)
         }
         Entry::PathsDir => {
             // two files in one directory argument: both are linted by the same Linter on the rayon pool
@@ -298,10 +628,88 @@ fn run_entry(entry: Entry, linter: &mut Linter, sc: &Scratch, sql: &str, fix: bo
             std::fs::write(dir.join("other.sql"), sql.to_ascii_uppercase()).expect("write scratch file");
             let r = linter.lint_paths(vec![dir], fix, &never);
             let f = r.paths.into_iter().flat_map(|d| d.files.into_iter()).find(|f| f.path.ends_with("main.sql")).expect("lint_paths(dir) did not return main.sql");
-            let vs = viols(&f);
-            (f.fix_string(), vs)
+            entry_out(f)
         }
+        Entry::Cli(_) => unreachable!(),
     })
+}
+
+/// `sqruff fix --force <args>` / `sqruff lint <args>` of the binary built from the tree, in a fresh scenario directory.
+fn cli_entry(shape: usize, sc: &Scratch, config: &str, clean: &str, sql: &str, fix: bool) -> Result<EntryOut, String> {
+    use std::io::Write;
+    use std::process::{Command, Stdio};
+    let (_, paths, config_flag) = CLI_SHAPES[shape];
+    let bin = sc.sqruff.as_ref().ok_or("no sqruff binary")?;
+    let dir = sc.dir.join("cli");
+    let _ = std::fs::remove_dir_all(&dir);
+    let io = |e: std::io::Error| format!("scenario directory: {e}");
+    for d in ["d1", "clean", "empty"] {
+        std::fs::create_dir_all(dir.join(d)).map_err(io)?;
+    }
+    std::fs::write(dir.join(if config_flag { "cfg.ini" } else { ".sqruff" }), config).map_err(io)?;
+    std::fs::write(dir.join("top.sql"), sql).map_err(io)?;
+    std::fs::write(dir.join("d1/main.sql"), sql).map_err(io)?;
+    std::fs::write(dir.join("d1/other.sql"), sql.to_ascii_uppercase()).map_err(io)?;
+    std::fs::write(dir.join("clean/ok.sql"), clean).map_err(io)?;
+    std::fs::write(dir.join("empty/readme.txt"), "no SQL here\n").map_err(io)?;
+    let stdin = paths == ["-"];
+    let mut cmd = Command::new(bin);
+    cmd.current_dir(&dir).env("RUST_BACKTRACE", "0").env("NO_COLOR", "1").env("RAYON_NUM_THREADS", "2").env_remove("GITHUB_ACTIONS");
+    cmd.arg(if fix { "fix" } else { "lint" });
+    if fix && !stdin {
+        cmd.arg("--force");
+    }
+    if config_flag {
+        cmd.args(["--config", "cfg.ini"]);
+    }
+    cmd.args(paths).stdout(Stdio::piped()).stderr(Stdio::piped()).stdin(if stdin { Stdio::piped() } else { Stdio::null() });
+    let mut child = cmd.spawn().map_err(|e| format!("spawn: {e}"))?;
+    if stdin {
+        if let Some(mut si) = child.stdin.take() {
+            let _ = si.write_all(sql.as_bytes());
+        }
+    }
+    let o = child.wait_with_output().map_err(|e| format!("wait: {e}"))?;
+    let (stdout, stderr) = (String::from_utf8_lossy(&o.stdout).to_string(), String::from_utf8_lossy(&o.stderr).to_string());
+    if o.status.code().is_none_or(|c| c > 1) {
+        return Err(format!("sqruff ended with {:?}: {}", o.status, trunc(&stderr, 300)));
+    }
+    // the copies of the text under test that the arguments cover
+    let mut mains: Vec<&str> = vec![];
+    if paths.contains(&"top.sql") || paths.contains(&".") {
+        mains.push("top.sql");
+    }
+    if paths.contains(&"d1") || paths.contains(&".") {
+        mains.push("d1/main.sql");
+    }
+    // violations of those copies in the human format: `== [path] FAIL`, `L:  1 | P:  1 | CP01 | ...`
+    let mut vs: Vec<Viol> = vec![];
+    let mut on_main = false;
+    for line in stderr.lines() {
+        if let Some(rest) = line.strip_prefix("== [") {
+            let name = rest.rsplit_once("] ").map(|x| x.0).unwrap_or(rest);
+            on_main = stdin || mains.iter().any(|m| name.ends_with(m));
+        } else if let Some(rest) = line.strip_prefix("L:") {
+            let parts: Vec<&str> = rest.splitn(4, " | ").collect();
+            if on_main && parts.len() >= 3 && parts[1].starts_with("P:") {
+                vs.push((parts[2].trim().to_string(), parts[0].trim().parse().unwrap_or(0), parts[1][2..].trim().parse().unwrap_or(0)));
+            }
+        }
+    }
+    let mut texts: Vec<(String, String)> = vec![];
+    if stdin {
+        // `sqruff fix -` prints the fixed text and a line break
+        let t = if fix { stdout.strip_suffix('\n').unwrap_or(&stdout).to_string() } else { sql.to_string() };
+        texts.push(("<stdin>".into(), t));
+    } else {
+        for m in &mains {
+            texts.push((m.to_string(), std::fs::read_to_string(dir.join(m)).map_err(io)?));
+        }
+    }
+    let copies_differ = if texts.iter().any(|t| t.1 != texts[0].1) { Some(format!("{:?}", texts.iter().map(|t| (t.0.clone(), trunc(&t.1, 200))).collect::<Vec<_>>())) } else { None };
+    // a copy the command left unfixed is what the property is judged on
+    let text = texts.iter().find(|t| t.1 == sql).or(texts.first()).map(|t| t.1.clone()).unwrap_or_default();
+    Ok(EntryOut { text, viols: vs, copies_differ })
 }
 
 /// Source slices of the leaves the property protects (comments, anything holding a quote character).
@@ -327,6 +735,24 @@ fn protected_slices(linter: &Linter, sql: &str) -> Option<Vec<(std::ops::Range<u
     .flatten()
 }
 
+/// Scope tokens of the texts of one item (source, fixed texts), computed once per distinct text.
+struct Scopes<'a> {
+    cfgs: Option<&'a [KindCfg; 5]>,
+    dialect: &'a str,
+    by_text: std::collections::HashMap<String, Option<std::rc::Rc<[Vec<Tok>; 5]>>>,
+}
+impl Scopes<'_> {
+    fn of(&mut self, linter: &Linter, sql: &str) -> Option<std::rc::Rc<[Vec<Tok>; 5]>> {
+        let cfgs = self.cfgs?;
+        if let Some(x) = self.by_text.get(sql) {
+            return x.clone();
+        }
+        let sc = parse_tree(linter, sql).and_then(|tree| catch(|| scope(&tree, self.dialect, cfgs)).ok()).map(std::rc::Rc::new);
+        self.by_text.insert(sql.to_string(), sc.clone());
+        sc
+    }
+}
+
 fn run_one(it: &Item, sc: &Scratch, out: &mut Buf) {
     out.count("files", 1);
     if it.sql.contains('\r') {
@@ -340,13 +766,29 @@ fn run_one(it: &Item, sc: &Scratch, out: &mut Buf) {
             return;
         }
     };
+    let cfgs = parse_cfg(&it.config);
+    if cfgs.is_none() {
+        out.count("configurations_outside_the_scope_reading", 1);
+    }
+    let mut scopes = Scopes { cfgs: cfgs.as_ref(), dialect: &it.dialect, by_text: Default::default() };
     let mut protected: Option<Option<Vec<(std::ops::Range<usize>, String)>>> = None;
     let mut reference: Option<String> = None;
     for entry in std::iter::once(Entry::Str).chain(it.entries.iter().copied()) {
         // `@entry` marks the observations made through another entry point than lint_string
         let at = if entry == Entry::Str { String::new() } else { format!("@{}", entry.name()) };
+        if let Entry::Cli(_) = entry {
+            // the command line scenarios need the binary, and a text that already follows the policy
+            if sc.sqruff.is_none() || reference.is_none() {
+                out.count("cli_entries_skipped", 1);
+                continue;
+            }
+        }
         out.count(&format!("entry_runs_{}", entry.name()), 1);
-        let (fixed, log) = match observe(it, entry, &at, &mut linter, sc, &mut protected, out) {
+        if entry == Entry::Str {
+            scope_visited(it, &linter, &mut scopes, out);
+        }
+        let clean = reference.clone();
+        let (fixed, log) = match observe(it, entry, &at, &mut linter, sc, clean.as_deref(), &mut scopes, &mut protected, out) {
             Some(x) => x,
             None => continue,
         };
@@ -359,16 +801,167 @@ fn run_one(it: &Item, sc: &Scratch, out: &mut Buf) {
     }
 }
 
+const KIND_NAMES: [&str; 5] = ["keywords", "identifiers", "functions", "literals", "types"];
+/// option list of the `consistent` policy per kind (`cap_policy_name` of the rule as configured)
+const KIND_EXTENDED: [bool; 5] = [false, true, false, false, true];
+
+/// Every token a kind's policy applies to is handed to `handle_segment` during a lint of the source, and no exempt
+/// token is; the calls of each rule's crawl are a correspondence case for the Gallina `trace`.
+fn scope_visited(it: &Item, linter: &Linter, scopes: &mut Scopes, out: &mut Buf) {
+    let Some(cfgs) = scopes.cfgs else { return };
+    let Some(sc) = scopes.of(linter, &it.sql) else {
+        out.count("scope_source_not_parsed", 1);
+        return;
+    };
+    let input = json!({"dialect": it.dialect, "config": it.config, "sql": it.sql, "entry": Entry::Str.name()});
+    CAPS_LOG.with(|l| *l.borrow_mut() = Some(Vec::new()));
+    let r = catch(|| linter.lint_string(&it.sql, None, false));
+    let log: Vec<CapsCall> = CAPS_LOG.with(|l| l.borrow_mut().take()).unwrap_or_default();
+    if r.is_err() {
+        out.count("scope_lint_panicked", 1);
+        return;
+    }
+    let mut called: [Vec<&CapsCall>; 5] = Default::default();
+    for c in &log {
+        match kind_of_call(c) {
+            Some(k) => called[k].push(c),
+            None => out.count("calls_of_an_unknown_element", 1),
+        }
+    }
+    for k in 0..5 {
+        let expected: Vec<&Tok> = sc[k].iter().filter(|t| !t.exempt()).collect();
+        out.count("scope_tokens", expected.len());
+        out.count("scope_tokens_exempt_by_ignore_words", sc[k].iter().filter(|t| t.ignored_word).count());
+        out.count("scope_tokens_exempt_by_ignore_regex", sc[k].iter().filter(|t| t.ignored_regex && !t.ignored_word).count());
+        // multiset differences
+        let mut need: std::collections::BTreeMap<&str, isize> = Default::default();
+        for t in &expected {
+            *need.entry(t.raw.as_str()).or_default() += 1;
+        }
+        for c in &called[k] {
+            *need.entry(c.raw.as_str()).or_default() -= 1;
+        }
+        let missing: Vec<&str> = need.iter().filter(|x| *x.1 > 0).map(|x| *x.0).collect();
+        let extra: Vec<&str> = need.iter().filter(|x| *x.1 < 0).map(|x| *x.0).collect();
+        out.direct(
+            "scope-visited",
+            missing.is_empty(),
+            &format!("c16-scope-{}:{}:{:08x}", KIND_NAMES[k], it.dialect, fnv(&format!("{}|{}", it.config, it.sql))),
+            &format!(
+                "the {} policy ({}) never reaches {} of the {} {} it applies to: {:?} are not handed to handle_segment during a lint (ignore_words {:?}, ignore_words_regex {:?})",
+                KIND_NAMES[k],
+                cfgs[k].policy,
+                missing.len(),
+                expected.len(),
+                KIND_NAMES[k],
+                &missing[..missing.len().min(12)],
+                cfgs[k].words,
+                cfgs[k].regex
+            ),
+            input.clone(),
+        );
+        out.hyp("H_exempt_tokens_not_visited", "blocking", extra.is_empty(), json!({"input": input, "kind": KIND_NAMES[k], "visited_although_exempt_or_out_of_scope": &extra[..extra.len().min(12)]}));
+        let same_order = expected.len() == called[k].len() && expected.iter().zip(called[k].iter()).all(|(t, c)| t.raw == c.raw);
+        if missing.is_empty() && extra.is_empty() && !same_order {
+            out.count("scope_same_tokens_in_another_order", 1);
+        }
+        // ---- the whole crawl against the Gallina trace
+        let toks: Vec<&Tok> = sc[k].iter().collect();
+        let ascii = toks.iter().all(|t| t.raw.is_ascii()) && cfgs[k].words.iter().all(|w| w.is_ascii()) && called[k].iter().all(|c| c.raw.is_ascii() && c.fixed.as_ref().is_none_or(|f| f.is_ascii()));
+        let panicked = called[k].iter().any(|c| c.description.as_deref() == Some("<panicked>"));
+        if toks.is_empty() || toks.len() > 250 || !ascii || panicked || !cfgs[k].regex.is_empty() || !same_order && (missing.is_empty() && extra.is_empty()) {
+            out.count("crawls_not_compared_with_the_model", 1);
+            continue;
+        }
+        let words: Vec<String> = if k == 4 { vec![] } else { cfgs[k].words.clone() };
+        let args = g_tuple(&[
+            (if KIND_EXTENDED[k] { "Extended" } else { "Basic" }).to_string(),
+            g_policy(&cfgs[k].policy),
+            g_list(words.iter().map(|w| g_str(w))),
+            g_list(toks.iter().map(|t| g_pair(&g_str(&t.raw), &g_bool(t.templated)))),
+        ]);
+        let exp = g_list(called[k].iter().map(|c| g_pair(&g_str(&c.raw), &g_opt(c.fixed.as_ref().map(|f| g_str(f))))));
+        {
+            use std::hash::{Hash, Hasher};
+            let mut h = std::collections::hash_map::DefaultHasher::new();
+            ("crawl", &args, &exp).hash(&mut h);
+            if !GLOBAL_SEEN.get_or_init(Default::default).lock().unwrap().insert(h.finish()) {
+                out.count("crawls_seen_again_in_another_file", 1);
+                continue;
+            }
+        }
+        let cls = format!("crawl-{}-{}", KIND_NAMES[k], if cfgs[k].policy == "consistent" { "consistent" } else { "concrete" });
+        out.case(
+            "crawl",
+            &cls,
+            called[k].iter().any(|c| c.fixed.is_some()) || toks.iter().any(|t| t.ignored_word),
+            args,
+            exp,
+            json!({"input": input, "kind": KIND_NAMES[k], "policy": cfgs[k].policy, "ignore_words": words, "tokens": toks.iter().map(|t| t.raw.clone()).collect::<Vec<_>>(),
+                   "calls": called[k].iter().map(|c| json!([c.raw, c.fixed])).collect::<Vec<_>>()}),
+        );
+    }
+}
+
+/// "Reaches the policy", read off the fixed text: every token a kind's policy applies to is written in the
+/// configured case (concrete policies); under `consistent` all of them are written in one of the kind's cases.
+fn policy_reached(it: &Item, entry: Entry, at: &str, fixed: &str, linter: &Linter, scopes: &mut Scopes, input: &Value, out: &mut Buf) {
+    let Some(cfgs) = scopes.cfgs else { return };
+    if it.sql.to_ascii_lowercase().contains("noqa") {
+        out.count("policy_reached_skipped_noqa", 1);
+        return;
+    }
+    let Some(sc) = scopes.of(linter, fixed) else {
+        out.count("policy_reached_fixed_text_not_parsed", 1);
+        return;
+    };
+    let mut bad: Vec<String> = vec![];
+    let mut n = 0;
+    for k in 0..5 {
+        let toks: Vec<&Tok> = sc[k].iter().filter(|t| !t.exempt() && !t.templated && !t.raw.is_empty() && t.raw.is_ascii()).collect();
+        n += toks.len();
+        let policy = cfgs[k].policy.as_str();
+        if policy == "consistent" {
+            let opts: &[&str] = if KIND_EXTENDED[k] { &["upper", "lower", "pascal", "capitalise"] } else { &["upper", "lower", "capitalise"] };
+            let fits = |c: &str| toks.iter().all(|t| apply_case(c, &t.raw).as_deref() == Some(t.raw.as_str()));
+            if !opts.iter().any(|c| fits(c)) {
+                let mut raws: Vec<&str> = toks.iter().map(|t| t.raw.as_str()).collect();
+                raws.dedup();
+                bad.push(format!("{}: no single case of {:?} fits all of {:?}", KIND_NAMES[k], opts, &raws[..raws.len().min(12)]));
+            }
+        } else if apply_case(policy, "a").is_some() {
+            let off: Vec<&str> = toks.iter().filter(|t| apply_case(policy, &t.raw).as_deref() != Some(t.raw.as_str())).map(|t| t.raw.as_str()).collect();
+            if !off.is_empty() {
+                bad.push(format!("{} not in {} case: {:?}", KIND_NAMES[k], policy, &off[..off.len().min(12)]));
+            }
+        }
+    }
+    out.count("policy_reached_tokens_checked", n);
+    out.direct(
+        &format!("policy-reached{}", at),
+        bad.is_empty(),
+        &format!("c16-reach{}:{}:{:08x}", at, it.dialect, fnv(&format!("{}|{}", it.config, it.sql))),
+        &format!("{}: the fixed text does not follow the configured policy: {}; fixed text: {:?}", entry.name(), bad.join("; "), trunc(fixed, 300)),
+        input.clone(),
+    );
+}
+
 /// The property observed through one entry point: fix, then lint and fix the result again through the same entry point.
-fn observe(it: &Item, entry: Entry, at: &str, linter: &mut Linter, sc: &Scratch, protected: &mut Option<Option<Vec<(std::ops::Range<usize>, String)>>>, out: &mut Buf) -> Option<(String, Vec<CapsCall>)> {
+#[allow(clippy::too_many_arguments)]
+fn observe(it: &Item, entry: Entry, at: &str, linter: &mut Linter, sc: &Scratch, clean: Option<&str>, scopes: &mut Scopes, protected: &mut Option<Option<Vec<(std::ops::Range<usize>, String)>>>, out: &mut Buf) -> Option<(String, Vec<CapsCall>)> {
     let input = json!({"dialect": it.dialect, "config": it.config, "sql": it.sql, "entry": entry.name()});
     let key_of = |what: &str| format!("c16-{}{}:{}:{:08x}", what, at, it.dialect, fnv(&format!("{}|{}", it.config, it.sql)));
     // ---- first fix, with the recorder on (it only sees calls made on this thread: not those of lint_paths' pool)
     CAPS_LOG.with(|l| *l.borrow_mut() = Some(Vec::new()));
-    let r1 = run_entry(entry, linter, sc, &it.sql, true);
+    let r1 = run_entry(entry, linter, sc, &it.config, clean, &it.sql, true);
     let log: Vec<CapsCall> = CAPS_LOG.with(|l| l.borrow_mut().take()).unwrap_or_default();
     let (fixed, vs1) = match r1 {
-        Ok(x) => x,
+        Ok(x) => {
+            if let Entry::Cli(_) = entry {
+                out.direct(&format!("cli-copies-agree{}", at), x.copies_differ.is_none(), &key_of("copies"), &format!("{}: the copies of one text under one configuration were not fixed to the same text: {}", entry.name(), x.copies_differ.clone().unwrap_or_default()), input.clone());
+            }
+            (x.text, x.viols)
+        }
         Err(msg) => {
             out.count(&format!("panics{}", at), 1);
             let _ = msg; // crashes are C03's subject
@@ -396,15 +989,15 @@ fn observe(it: &Item, entry: Entry, at: &str, linter: &mut Linter, sc: &Scratch,
         ),
         input.clone(),
     );
-    match run_entry(entry, linter, sc, &fixed, false) {
-        Ok((_, vs)) => {
-            let left: Vec<Viol> = vs.into_iter().filter(|v| v.0.starts_with("CP")).collect();
-            out.direct(&format!("lint-of-fix-is-clean{}", at), left.is_empty(), &key_of("relint"), &format!("{}: linting the fixed text still reports {:?}; fixed text: {:?}", entry.name(), left, trunc(&fixed, 300)), input.clone());
+    match run_entry(entry, linter, sc, &it.config, clean, &fixed, false) {
+        Ok(o) => {
+            let left: Vec<Viol> = o.viols.into_iter().filter(|v| v.0.starts_with("CP")).collect();
+            out.direct(&format!("lint-of-fix-is-clean{}", at), left.is_empty(), &key_of("relint"), &format!("{}: linting the fixed text still reports {:?}; fixed text: {:?}", entry.name(), &left[..left.len().min(10)], trunc(&fixed, 300)), input.clone());
         }
         Err(_) => out.count(&format!("relint_panicked{}", at), 1),
     }
-    match run_entry(entry, linter, sc, &fixed, true) {
-        Ok((fixed2, _)) => out.direct(&format!("fix-is-idempotent{}", at), fixed2 == fixed, &key_of("refix"), &format!("{}: fixing the fixed text changes it again: {:?} -> {:?}", entry.name(), trunc(&fixed, 200), trunc(&fixed2, 200)), input.clone()),
+    match run_entry(entry, linter, sc, &it.config, clean, &fixed, true) {
+        Ok(o) => out.direct(&format!("fix-is-idempotent{}", at), o.text == fixed, &key_of("refix"), &format!("{}: fixing the fixed text changes it again: {:?} -> {:?}", entry.name(), trunc(&fixed, 200), trunc(&o.text, 200)), input.clone()),
         Err(_) => out.count(&format!("refix_panicked{}", at), 1),
     }
     if case_only {
@@ -420,6 +1013,7 @@ fn observe(it: &Item, entry: Entry, at: &str, linter: &mut Linter, sc: &Scratch,
             out.count("protected_leaves_checked", prot.len());
             out.direct(&format!("quoted-and-comments-untouched{}", at), bad.is_empty(), &key_of("protected"), &format!("{}: quoted identifier / literal / comment changed by the fix: {:?}", entry.name(), bad), input.clone());
         }
+        policy_reached(it, entry, at, &fixed, linter, scopes, &input, out);
     }
     Some((fixed, log))
 }
@@ -505,7 +1099,7 @@ pub fn main(args: &Args) {
         };
         items.push(Item { cls: "replay", dialect: j["dialect"].as_str().unwrap_or("ansi").to_string(), config: j["config"].as_str().unwrap_or("").to_string(), sql: j["sql"].as_str().unwrap_or("").to_string(), entries });
     } else {
-        let none: [Option<String>; 5] = Default::default();
+        let none = Ignore::default();
         // hand-written statements × every uniform policy × a few dialects, plus mixed policies
         for (i, s) in SNIPPETS.iter().enumerate() {
             for k in 0..POLICIES.len() + 2 {
@@ -544,13 +1138,20 @@ pub fn main(args: &Args) {
             items.push(Item { cls, dialect: d.clone(), config: mk_config(&d, &pol, &ig), sql, entries: vec![] });
         }
     }
+    let sqruff = args.flag("--sqruff").map(std::path::PathBuf::from);
     if args.flag("--replay-input").is_none() {
-        // every input goes through every public entry point (lint_string first: it feeds the recorder)
+        // every input goes through every public entry point (lint_string first: it feeds the recorder);
+        // one input in three (every input in the thorough tier) also through two shapes of the command line
         for it in items.iter_mut() {
             it.entries = ALT_ENTRIES.to_vec();
+            if sqruff.is_some() && (args.thorough() || rng.chance(1, 3)) {
+                let a = rng.below(CLI_SHAPES.len());
+                let b = (a + 1 + rng.below(CLI_SHAPES.len() - 1)) % CLI_SHAPES.len();
+                it.entries.extend([Entry::Cli(a), Entry::Cli(b)]);
+            }
         }
     }
-    par_run(&mut out, &items, Scratch::new, |sc, it, buf| {
+    par_run(&mut out, &items, || Scratch::new(sqruff.clone()), |sc, it, buf| {
         run_one(it, sc, buf);
         buf.count(&format!("items_{}", it.cls), 1);
     });
